@@ -51,6 +51,14 @@ Theorem c28_progress : forall p k lo hi A0 n s now rnd,
   exists tid s', cstep p k s (tid, now, rnd) = Some s'.
 Proof. exact conc_progress. Qed.
 
+(* Consequently every workload has a complete schedule inside the window: the hypothesis
+   "all threads are done" of c28_exact is satisfiable for every number of threads and bursts. *)
+Theorem c28_can_finish : forall p k lo hi e bursts, wf_params p -> cell_ok p k hi e ->
+  hi - lo < nanos_per_sec -> lo <= hi ->
+  exists sched, Forall (fun l => lo <= label_now l <= hi) sched /\
+                all_done (crun p k (cinit e bursts) sched) = true.
+Proof. exact conc_can_finish. Qed.
+
 (* The critical section of the interleaving model is process_response on the stream's bucket. *)
 Theorem c28_cell_step_is_process_response : forall (hname : bytes -> N) (hkey : key -> N) p t c k now rnd,
   subject_to_rrl c = true -> key_of hname p c = Some k -> t_len t <> 0 ->
@@ -80,5 +88,6 @@ Print Assumptions c28_exact_fresh.
 Print Assumptions c28_invariant_init.
 Print Assumptions c28_invariant_step.
 Print Assumptions c28_progress.
+Print Assumptions c28_can_finish.
 Print Assumptions c28_cell_step_is_process_response.
 Print Assumptions c28_lockless_refuted.
